@@ -140,6 +140,37 @@ func c17Inventory(repo string) ([]string, error) {
 			return true
 		})
 	}
+	// garbleScratchPool: the pool's New function must be set before the pool is published
+	if m, ok := methods["garbleScratchPool"]; ok {
+		var posNew, posCAS token.Pos
+		ast.Inspect(m.decl.Body, func(nd ast.Node) bool {
+			switch nd := nd.(type) {
+			case *ast.KeyValueExpr:
+				if id, ok := nd.Key.(*ast.Ident); ok && id.Name == "New" && posNew == 0 {
+					posNew = nd.Pos()
+				}
+			case *ast.AssignStmt:
+				for _, l := range nd.Lhs {
+					if sel, ok := l.(*ast.SelectorExpr); ok && sel.Sel.Name == "New" && posNew == 0 {
+						posNew = nd.Pos()
+					}
+				}
+			case *ast.CallExpr:
+				if sel, ok := nd.Fun.(*ast.SelectorExpr); ok && sel.Sel.Name == "CompareAndSwap" && posCAS == 0 {
+					posCAS = nd.Pos()
+				}
+			}
+			return true
+		})
+		switch {
+		case posNew == 0 || posCAS == 0:
+			inv = append(inv, "garbleScratchPool:order:New-or-CompareAndSwap-not-found")
+		case posNew < posCAS:
+			inv = append(inv, "garbleScratchPool:order:New-before-CompareAndSwap")
+		default:
+			inv = append(inv, "garbleScratchPool:order:CompareAndSwap-before-New")
+		}
+	}
 	sort.Strings(inv)
 	var out []string
 	for i, s := range inv {
